@@ -29,3 +29,25 @@ _m("C16",
    "(relative) of a boundary, or outside the support, or >= 2 parameters; distinct by canonical JSON hash.",
    _COMMON + ["values are passed as numpy float64 (as emcee and the suite pass them)",
               "reference log-densities below -600 are not generated (density underflow is a range limit, not the property)"])
+
+_m("C01",
+   "(a) enumeration: every built-in propensity type x every reactant multiset of order 0..4 over 3 species (both "
+   "declaration orders) x integer states {0..3}^k (quick) / {0..4}^k (thorough) x V in {0.5,1,2} x Hill n in {1,2,3}; "
+   "(b) Hypothesis: 1..4 reactions of random type/order/products/delay blocks, named or numeric parameters in "
+   "[1e-3,1e3], real and integer states in [0,50] incl. 0 and 1e-9, V in (0.1,10).  Every case is evaluated in the "
+   "four modes through the bare propensity object, the plain interface and the safe interface (safe only where each "
+   "reaction has its full complement of reactants) and compared with the closed forms of vf/ref.py to 1e-10 relative. "
+   "Non-trivial: order >= 2, a repeated reactant, V != 1, a Hill type or fractional n; distinct by case hash.",
+   _COMMON + ["general propensities are C02's business and are excluded here"],
+   exhaustive=True,
+   exhaustive_note="the integer grid sub-space (a) is enumerated completely; the real-valued sub-space (b) is sampled")
+
+_m("C20",
+   "Hypothesis generates operation lists (add(reaction, requested time before / on / between (offsets .1 .25 .4, "
+   "never .5) / beyond the grid, amount 1..3), read-and-advance, copy (continue on copy or original), binomial "
+   "partition (continue on a part or the original)) of length <= 40 (quick) / 120 (thorough) over queues with 1..2 "
+   "reactions, 2..4 slots, dt = 2^-3..2^2 and starting time a multiple of dt; a dictionary model {absolute slot -> "
+   "counts} with the nearest-slot / clamp rule is compared after every operation and by draining at the end; copies, "
+   "partition parts and originals left behind are drained at the end to show independence.  Non-trivial: the ring "
+   "buffer wrapped with an entry pending across the wrap, or a copy/partition followed by further operations.",
+   _COMMON + ["histories are bounded by the stated length", "grid steps are exactly representable (property's own precondition)"])
